@@ -48,6 +48,10 @@ pub fn contexts() -> Vec<(Vec<u8>, Vec<u8>)> {
 		(domains::b("s://"), domains::b("?@:/")),
 		(domains::b("//"), domains::b("#@:/")),
 		(domains::b("s://"), domains::b("/@:")),
+		// rests of 1, 2 and 4 bytes (every relation between the lengths of splice, old text and tail)
+		(domains::b("//"), domains::b("/")),
+		(domains::b("//"), domains::b("?q")),
+		(domains::b("s://"), domains::b("#fff")),
 	]
 }
 
